@@ -17,8 +17,12 @@ import (
 
 // Render renders the render tree.
 func Render(node Node, w io.Writer, vars map[string]any, c Config) Error {
+	return renderWith(node, w, newNodeContext(vars, c))
+}
+
+func renderWith(node Node, w io.Writer, ctx nodeContext) Error {
 	tw := trimWriter{w: w}
-	if err := node.render(&tw, newNodeContext(vars, c)); err != nil {
+	if err := node.render(&tw, ctx); err != nil {
 		return err
 	}
 	if _, err := tw.Flush(); err != nil {
